@@ -36,9 +36,10 @@ MANIFEST = {
 }
 RULE = ("LastChange documents rendered from an abstract document (0..3 instances, 0..8 entries, channels {absent, Master, LF, "
         "RF, '', master}, prefixed and unprefixed names, attribute order, quoting, character references, comments, "
-        "whitespace, XML declaration) plus byte-level mutations of rendered documents (truncation, deleted/duplicated "
+        "whitespace, XML declaration naming utf-8/iso-8859-1/utf-16/us-ascii/windows-1252/unknown encodings) plus byte-level mutations of rendered documents (truncation, deleted/duplicated "
         "characters, swapped tags, bad entities and character references, control characters, junk before/after), each "
-        "delivered through service.notify_changed_state_variables -> DmrDevice._on_event. non-trivial = instance 0 has a "
+        "delivered through service.notify_changed_state_variables -> DmrDevice._on_event (one third as a GENA NOTIFY through "
+        "UpnpEventHandler.handle_notify after a real async_subscribe_services). non-trivial = instance 0 has a "
         "master entry naming a service variable (documents) / expat delivered at least one element before failing "
         "(mutations); distinct = distinct canonical driver text")
 EXHAUSTIVE = {"quick": False, "thorough": False}
